@@ -206,6 +206,11 @@ class ExprMixin(ExecBase):
                 yield V.list_get(base, i), st
             return
         if k == "dict":
+            if idx.ty.kind == "opt" and base.ty.args[0].kind != "opt":
+                # d[None] is a lookup of the key None, which a dict of names never holds
+                self.oblige("safe", st, z3.Not(V.opt_isnone(idx)), f"dict key is not None (KeyError) for `{ast.unparse(node)[:60]}`", node.lineno)
+                st.assume(z3.Not(V.opt_isnone(idx)))
+                idx = V.opt_val(idx)
             key = O.coerce(idx, base.ty.args[0])
             present = V.dict_has(base, key)
             declared = self.contract.raises.get("KeyError")
